@@ -341,6 +341,8 @@ package interpreter
 //@ func (*Interpreter).ExecuteRoute
 //@   assertat "switch r := result.(type) {" route.ReturnType != nil ==> checkOK(result, route.ReturnType)
 
+// (arrays are values: a built-in that returns an array returns one it has just made - never an argument's
+// backing array or a window onto it, which a later in-place operation on either would corrupt)
 // ---- built-in functions (C04, C01): no argument vector makes a built-in panic (strict: no index, slice, nil,
 // ---- type-assertion, division, allocation-size panic); errors are returned as GlyphLang-level errors
 //@ func builtinTimeNow
@@ -395,6 +397,7 @@ package interpreter
 //@   strict
 //@ func builtinAppend
 //@   strict
+//@   ensures result1 == nil && typeis(result, []interface{}) ==> len(result.([]interface{})) == 0 || fresh(base(result.([]interface{})))
 //@ func builtinSet
 //@   strict
 //@ func builtinRemove
@@ -403,8 +406,11 @@ package interpreter
 //@   strict
 //@ func builtinMap
 //@   strict
+//@   ensures result1 == nil && typeis(result, []interface{}) ==> len(result.([]interface{})) == 0 || fresh(base(result.([]interface{})))
 //@ func builtinFilter
 //@   strict
+//@   loop 1 invariant 0 <= rangeidx && fresh(base(result))
+//@   ensures result1 == nil && typeis(result, []interface{}) ==> len(result.([]interface{})) == 0 || fresh(base(result.([]interface{})))
 //@ func builtinReduce
 //@   strict
 //@ func builtinFind
@@ -415,12 +421,17 @@ package interpreter
 //@   strict
 //@ func builtinSort
 //@   strict
+//@   ensures result1 == nil && typeis(result, []interface{}) ==> len(result.([]interface{})) == 0 || fresh(base(result.([]interface{})))
 //@ func builtinReverse
 //@   strict
+//@   ensures result1 == nil && typeis(result, []interface{}) ==> len(result.([]interface{})) == 0 || fresh(base(result.([]interface{})))
 //@ func builtinFlat
 //@   strict
+//@   loop 1 invariant 0 <= rangeidx && fresh(base(result))
+//@   ensures result1 == nil && typeis(result, []interface{}) ==> len(result.([]interface{})) == 0 || fresh(base(result.([]interface{})))
 //@ func builtinSlice
 //@   strict
+//@   ensures result1 == nil && typeis(result, []interface{}) ==> len(result.([]interface{})) == 0 || fresh(base(result.([]interface{})))
 //@ func builtinText
 //@   strict
 //@ func builtinHTML
